@@ -171,8 +171,9 @@ def execute(sc, mutant=None, want_ops=False, want_schedule=False):
         log_names = {'pm.vbat'}
         param_names = {'%s.%s' % (p['group'].decode(), p['name'].decode()) for p in params}
         cf = cfm.Crazyflie(rw_cache=None)
-        if mutant:
-            mutant(cf)
+        undo = mutant(cf) if mutant else None
+        if callable(undo):
+            s.c02_undo = undo
 
         def me():
             r = s.current()
@@ -352,6 +353,8 @@ def execute(sc, mutant=None, want_ops=False, want_schedule=False):
                   'threads': [(t['name'], t['status'], t.get('op'), t.get('site')) for t in rep if t['status'] != 'finished'],
                   'dead': [(t['name'], t.get('traceback', '')[-1200:]) for t in rep if t['status'] == 'dead'],
                   'exc': st.get('last_exc'), 'steps': s.steps}
+    if getattr(s, 'c02_undo', None):
+        s.c02_undo()
     return {'ev': finish_events(ev, sc, err_atts), 'n': len(sc['attempts']), 'q': q, 'epi': epi, 'detail': detail,
             'schedule': schedule, 'cm': int(bool(want_ops and conformable(sc))), 'replay': rp}
 
@@ -658,27 +661,89 @@ def install_op_log(s, ev, cf, scfs):
 
 
 # --------------------------------------------------------------------------- which as-is behaviours does the tree have
-BEHAVIOURAL_ASIS = ['syncOpenNoWake', 'pingSelfJoin', 'sendNoFinally', 'staleFetcher', 'errStateRace', 'errInSender',
-                    'dispStalePk', 'updDoubleRelease']
+# class E (lifecycle races) is not repaired in /repo; these two have no structural footprint of their own
+ASSUMED_ASIS = ['dispStalePk']
 _defects_cache = {}
 
 
+def _probe_send_finally():
+    """does send_packet leave _send_lock held when the driver's send_packet raises?"""
+    import cflib.crazyflie as cfm
+    from cflib.crtp.crtpstack import CRTPPacket
+
+    class RaisingLink:
+        needs_resending = False
+
+        def send_packet(self, pk):
+            raise ValueError('probe')
+
+        def receive_packet(self, wait=0):
+            return None
+
+        def close(self):
+            pass
+    with vsched.scheduler(vsched.FifoPolicy(), max_steps=2000) as s:
+        sd.set_world(sd.World())
+        cf = cfm.Crazyflie(rw_cache=None)
+        cf.link = RaisingLink()
+
+        def body():
+            try:
+                cf.send_packet(CRTPPacket(0xF3, b''))
+            except ValueError:
+                pass
+        u = s.spawn(body, 'user')
+        s.run(until=lambda: u.finished, horizon=5.0)
+        return bool(cf._send_lock.locked())
+
+
+def _probe_upd_double_release():
+    """does _ParamUpdater.run die when close() released wait_lock between its acquire and its release?"""
+    import cflib.crazyflie as cfm
+    from cflib.crtp.crtpstack import CRTPPacket
+    with vsched.scheduler(vsched.FifoPolicy(), max_steps=2000) as s:
+        sd.set_world(sd.World())
+        cf = cfm.Crazyflie(rw_cache=None)
+        pu = cf.param.param_updater
+        rec = pu._vs_rec
+        pk = CRTPPacket()
+        pk.set_header(2, 1)
+        pk.data = b'\x00\x00'
+        pu.request_queue.put(pk)
+        for _ in range(60):
+            op = rec.pending
+            if op is None or rec.finished or (op.kind == 'lock.release' and op.obj is pu.wait_lock) or not op.ready():
+                break
+            s.step_thread(rec)
+        if rec.pending is None or rec.pending.kind != 'lock.release':
+            return False
+        pu.close()
+        s.step_thread(rec)
+        return rec.dead is not None
+
+
 def detect_defects():
-    """The design spec has a switch per code site (Lifecycle.tla, Defects).  The structural ones
-    (a second read of self.link after the test) are measured on a fault-free reference run and a
-    run with a driver-reported failure, so that the conformance binding follows the tree when such
-    a site is repaired; the behavioural ones are listed."""
+    """Which as-is behaviours (switches of Lifecycle.tla) does the tree under test have?  Every switch is measured:
+    structurally (visible-operation patterns of reference runs) or behaviourally (a canonical witness scenario / a
+    direct probe of the code site).  The conformance binding and the as-is counterexample searches use this set, so
+    they follow repairs and regressions of /repo."""
     if 'd' in _defects_cache:
         return _defects_cache['d']
-    t = execute({'mode': 'sync', 'policy': ('fifo', 0), 'attempts': [{'api': 'plain', 'close': 12}, {'api': 'plain', 'fault': [14, 'driver']}]},
-                want_ops=True)
-    by = {}
-    for e in t['ev']:
-        if e['e'] == 'op':
-            by.setdefault(e['st'], []).append(e['k'])
+
+    def ops_of(t):
+        by = {}
+        for e in t['ev']:
+            if e['e'] == 'op':
+                by.setdefault(e['st'], []).append(e['k'])
+        return by
+
     def has(seq, sub):
         return any(seq[i:i + len(sub)] == sub for i in range(len(seq)))
-    d = list(BEHAVIOURAL_ASIS)
+    d = list(ASSUMED_ASIS)
+    # structural: close by the user, then a driver-reported failure after connected (ping thread exists)
+    t = execute({'mode': 'sync', 'policy': ('fifo', 0),
+                 'attempts': [{'api': 'plain', 'close': 12}, {'api': 'plain', 'fault': [14, 'driver']}]}, want_ops=True)
+    by = ops_of(t)
     if has(by.get('user', []), ['acq', 'rl', 'rl', 'rel']):
         d.append('sendReread')
     if has(by.get('disp', []), ['rl', 'rl', 'recv']):
@@ -689,6 +754,30 @@ def detect_defects():
         d.append('errReread')
     if has(by.get('user', []), ['ws', 'wl', 'rl']):
         d.append('openReread')
+    if not has(by.get('disp', []), ['recv', 'rl', 'acq']):
+        d.append('staleFetcher')            # no link-identity read in the TocFetcher callbacks
+    if 'join' in by.get('err2', []):
+        d.append('stopJoins')
+    ev = t['ev']
+    idx_disc = [i for i, e in enumerate(ev) if e['e'] == 'cb' and e['st'] == 'err2' and e['name'] == 'disconnected']
+    idx_ws = [i for i, e in enumerate(ev) if e['e'] == 'op' and e['st'] == 'err2' and e['k'] == 'ws']
+    if idx_disc and idx_ws and idx_ws[-1] > idx_disc[0]:
+        d.append('errStateRace')            # state read before, written after the callbacks, no mutual exclusion
+    # behavioural: canonical witnesses
+    t = execute({'mode': 'sync', 'policy': ('fifo', 0), 'attempts': [{'api': 'plain', 'fault': [3, 'sender']}]}, want_ops=True)
+    if any(e['e'] == 'lerr' and not e['st'].startswith('err') for e in t['ev']):
+        d.append('errInSender')
+    t = execute({'mode': 'sync', 'policy': ('fifo', 0), 'attempts': [{'api': 'sync', 'fault': [2, 'sender']}]}, want_ops=True)
+    if any(p_['kind'] == 'sopen' for p_ in t['q']['pending']):
+        d.append('syncOpenNoWake')
+    if 'stopJoins' in d:
+        t = execute({'mode': 'sync', 'policy': ('fifo', 0), 'attempts': [{'api': 'plain', 'fault': [12, 'sender']}]}, want_ops=True)
+        if any(role_of(n) == 'ping' and 'stop' in tb for (n, tb) in t['detail']['dead']):
+            d.append('pingSelfJoin')
+    if _probe_send_finally():
+        d.append('sendNoFinally')
+    if _probe_upd_double_release():
+        d.append('updDoubleRelease')
     _defects_cache['d'] = sorted(d)
     return _defects_cache['d']
 
@@ -787,6 +876,187 @@ def _mut_established_again(cf):
             cbs[i] = disc
 
 
+# ---- the seven repairs of /repo (89ee29b 12cf4de 8221480 4d1c0f8 dab8b8e 6c1c06c 7e90fbe) reverted in memory --------
+def _rev_sync_wake(cf):
+    from cflib.crazyflie.syncCrazyflie import SyncCrazyflie
+    orig = SyncCrazyflie._disconnected
+
+    def _disconnected(self, link_uri):          # pre-fix: does not wake a pending open_link
+        self._remove_callbacks()
+        self._is_link_open = False
+        if self._disconnect_event:
+            self._disconnect_event.set()
+    SyncCrazyflie._disconnected = _disconnected
+    return lambda: setattr(SyncCrazyflie, '_disconnected', orig)
+
+
+def _rev_disp_reread(cf):
+    from harness.vsched import vtime
+    inc = cf.incoming
+
+    def run():                                  # pre-fix: test self.cf.link, then read it again
+        while True:
+            if inc.cf.link is None:
+                vtime.sleep(1)
+                continue
+            pk = inc.cf.link.receive_packet(1)
+            if pk is None:
+                continue
+            inc.cf.packet_received.call(pk)
+            for cb in [cb for cb in inc.cb if cb.port == (pk.port & cb.port_mask) and cb.channel == (pk.channel & cb.channel_mask)]:
+                try:
+                    cb.callback(pk)
+                except Exception:
+                    pass
+    inc.run = run
+
+
+def _rev_close_reread(cf):
+    def lerr(errmsg):                           # pre-fix _link_error_cb
+        cf.state                                # (argument of the log message)
+        if cf.link is not None:
+            cf.link.close()
+        cf.link = None
+        cf._answer_patterns = {}
+        if cf.state == 1:
+            cf.connection_failed.call(cf.link_uri, errmsg)
+        elif cf.state == 2 or cf.state == 3:
+            cf.disconnected.call(cf.link_uri)
+            cf.connection_lost.call(cf.link_uri, errmsg)
+        elif cf.state == 0:
+            cf.disconnected_link_error.call(cf.link_uri, errmsg)
+        cf.state = 0
+
+    def close_link():                           # pre-fix close_link
+        if cf.link is not None:
+            cf.commander.send_setpoint(0, 0, 0, 0)
+        if cf.link is not None:
+            cf.link.close()
+            cf.link = None
+        cf._answer_patterns = {}
+        cf.disconnected.call(cf.link_uri)
+        cf.state = 0
+    cf._link_error_cb = lerr
+    cf.close_link = close_link
+
+
+def _rev_latency_join(cf):
+    from harness.vsched import vthreading, vtime
+    lat = cf.link_statistics.latency
+
+    def start():                                # pre-fix Latency: shared stop event, stop() joins
+        if lat._ping_thread_instance is None or not lat._ping_thread_instance.is_alive():
+            lat._stop_event.clear()
+            lat._ping_thread_instance = vthreading.Thread(target=_ping_thread)
+            lat._ping_thread_instance.start()
+
+    def stop():
+        lat._stop_event.set()
+        if lat._ping_thread_instance is not None:
+            lat._ping_thread_instance.join()
+            lat._ping_thread_instance = None
+
+    def _ping_thread(interval=0.1):
+        while not lat._stop_event.is_set():
+            lat.ping()
+            vtime.sleep(interval)
+    lat.start, lat.stop = start, stop
+
+
+def _rev_send_finally(cf):
+    from harness.vsched.vthreading import Timer
+    _rev_close_reread(cf)                       # observable only together with an exception inside send_packet
+
+    def send_packet(pk, expected_reply=(), resend=False, timeout=0.2):     # pre-fix: no try/finally
+        if not pk.is_data_size_valid():
+            raise Exception('Data part of packet is too large')
+        cf._send_lock.acquire()
+        link = cf.link
+        answer_patterns = cf._answer_patterns
+        if link is not None:
+            if len(expected_reply) > 0 and not resend and link.needs_resending:
+                pattern = (pk.header,) + expected_reply
+                t = Timer(timeout, lambda: cf._no_answer_do_retry(pk, pattern, timeout))
+                t.request = pk
+                answer_patterns[pattern] = t
+                t.start()
+            elif resend:
+                pattern = expected_reply
+                pending = answer_patterns.get(pattern)
+                if pending is not None and pending.request is pk:
+                    t = Timer(timeout, lambda: cf._no_answer_do_retry(pk, pattern, timeout))
+                    t.request = pk
+                    answer_patterns[pattern] = t
+                    t.start()
+                else:
+                    cf._send_lock.release()
+                    return
+            link.send_packet(pk)
+            cf.packet_sent.call(pk)
+        cf._send_lock.release()
+    cf.send_packet = send_packet
+
+
+def _rev_upd_release(cf):
+    import sys
+    from harness.vsched import vthreading
+    pu = cf.param.param_updater
+
+    class PreFixLock(vthreading.Lock):
+        """_ParamUpdater.run's own release of an unlocked lock is not tolerated (pre-fix: no try/except there)"""
+        def release(self):
+            from_run = sys._getframe(1).f_code.co_name == 'run'
+
+            def fire():
+                if not self._locked:
+                    if from_run:
+                        raise AssertionError('release unlocked lock (pre-fix _ParamUpdater.run)')
+                    raise RuntimeError('release unlocked lock')
+                self._locked = False
+                self._owner = None
+            return vthreading._do(vcore.Op('lock.release', self, lambda: True, fire))
+    pu.wait_lock = PreFixLock()
+
+
+def _rev_fetcher_check(cf):
+    """pre-fix TocFetcher: the link-identity lines are cut out of the current source (so also their reads of cf.link)"""
+    import inspect
+    import textwrap
+    import cflib.crazyflie.toc as tocm
+    TocFetcher = tocm.TocFetcher
+    orig_cb, orig_start = TocFetcher._new_packet_cb, TocFetcher.start
+
+    def strip(fn, drop_from, n):
+        lines = textwrap.dedent(inspect.getsource(fn)).splitlines()
+        i = next(k for k, ln in enumerate(lines) if drop_from in ln)
+        j = i
+        while j > 0 and lines[j - 1].strip().startswith('#'):
+            j -= 1
+        del lines[j:i + n]
+        ns = {}
+        exec(compile('\n'.join(lines), '<pre-fix TocFetcher>', 'exec'), tocm.__dict__, ns)
+        return ns[fn.__name__]
+    TocFetcher._new_packet_cb = strip(orig_cb, 'if self.cf.link is not self._link', 5)
+    TocFetcher.start = strip(orig_start, 'self._link = self.cf.link', 1)
+
+    def undo():
+        TocFetcher._new_packet_cb, TocFetcher.start = orig_cb, orig_start
+    return undo
+
+
+# name -> (installer, switches of Lifecycle.tla it turns back on, cfg overrides, invariant that exposes it)
+REVERTS = {
+    'revert:89ee29b-sync-wake': (_rev_sync_wake, ['syncOpenNoWake'], {'UseSync': 'TRUE'}, 'QuietOK'),
+    'revert:12cf4de-dispatcher-link-once': (_rev_disp_reread, ['dispReread'], {}, 'NoThreadDies'),
+    'revert:8221480-close-link-once': (_rev_close_reread, ['closeReread', 'errReread'], {'Closer': 'TRUE'}, 'NoThreadDies'),
+    'revert:4d1c0f8-send-finally': (_rev_send_finally, ['sendNoFinally', 'closeReread', 'errReread'],
+                                    {'Closer': 'TRUE', 'FaultBy': '{"sender"}'}, 'NoLeakedSendLock'),
+    'revert:dab8b8e-latency-no-join': (_rev_latency_join, ['stopJoins', 'pingSelfJoin'], {'FaultBy': '{"sender"}', 'MaxPings': 1},
+                                       'NoJoinUnderSendLock'),
+    'revert:6c1c06c-updater-release': (_rev_upd_release, ['updDoubleRelease'], {}, 'NoThreadDies'),
+    'revert:7e90fbe-fetcher-link-check': (_rev_fetcher_check, ['staleFetcher'], {}, 'NoEarlyConnected'),
+}
+
 MUTANTS = {
     'no_connection_lost': _mut_lerr('no_lost'),
     'lost_before_disconnected': _mut_lerr('lost_first'),
@@ -797,6 +1067,7 @@ MUTANTS = {
     'close_link_without_disconnected': _mut_close_silent,
     'link_established_after_disconnected': _mut_established_again,
 }
+MUTANTS.update({k: v[0] for k, v in REVERTS.items()})
 
 
 # --------------------------------------------------------------------------- scenario sources
@@ -899,8 +1170,71 @@ def _exc_site(tb):
     return site, (m.group(1) if m else 'Exception')
 
 
+LIFECYCLE = ('open', 'close', 'lerr')
+RACE_CLAUSES = ('Grammar', 'ConnectedBeforeTables', 'FullyBeforeValues', 'AfterDisconnected', 'LostWithoutDisconnected',
+                'FailureDisconnectedThenLost', 'FailureBeforeFirstPacketFails', 'CloseOneDisconnected',
+                'SyncCallHangs', 'NotDisconnected', 'SpuriousDisconnected')
+
+
+def lifecycle_race(t, clause, at):
+    """Class E (known, unrepaired): the lifecycle routines open_link / close_link / _link_error_cb and the
+    dispatcher's set-up callbacks are not mutually exclusive.  A violation belongs to it iff, computed from the
+    trace (1-based event index `at` of the violating callback / window end / quiescence report):
+      R1  another thread is inside a lifecycle routine when the violating event happens, or
+      R2  a lifecycle routine of the violating thread that contains the event overlapped one of another thread, or
+      R3  the open_link call of the event's attempt overlapped a lifecycle routine of another thread, or
+      R4  the dispatcher delivers link_established/connected/fully_connected while handling a packet it took from a
+          link whose teardown (error report, close_link) had begun or that was replaced by a later open_link;
+      for the end-of-trace clauses: some overlap (R2) or R4 anywhere in the history.
+    Returns None or the variant: 'reconnect' (an open_link of attempt >= 2 happened before) | 'during-teardown'."""
+    if clause not in RACE_CLAUSES:
+        return None
+    ev = t['ev']
+    inf = len(ev) + 10
+    wins = []
+    for i, e in enumerate(ev):
+        if e['e'] in LIFECYCLE:
+            end = next((j + 1 for j in range(i + 1, len(ev)) if ev[j]['e'] == e['e'] + '_end' and ev[j]['cid'] == e['cid']), inf)
+            wins.append({'k': e['e'], 'th': e['th'], 'b': i + 1, 'e': end, 'att': e['att']})
+
+    def overlaps(w):
+        return any(o['th'] != w['th'] and o['b'] <= w['e'] and w['b'] <= o['e'] for o in wins)
+
+    def stale_packet(i):
+        """event i (0-based) is a set-up callback of the dispatcher for a packet of a link that is gone"""
+        e = ev[i]
+        if not (e['e'] == 'cb' and e['st'] == 'disp' and e['name'] in ('established', 'connected', 'fully')):
+            return False
+        r = next((j for j in range(i - 1, -1, -1) if ev[j]['e'] == 'op' and ev[j]['st'] == 'disp' and ev[j]['k'] == 'recv'
+                  and ev[j]['c'] != 'to'), None)
+        if r is None:
+            return False
+        rd = next((j for j in range(r - 1, -1, -1) if ev[j]['e'] == 'op' and ev[j]['st'] == 'disp' and ev[j]['k'] == 'rl'), r)
+        a_r = max([x['att'] for x in ev[:rd] if x['e'] == 'open'] or [0])
+        return any((x['e'] in ('lerr', 'close') and x['att'] == a_r) or (x['e'] == 'open' and x['att'] > a_r) for x in ev[:i])
+    variant = 'reconnect' if any(x['e'] == 'open' and x['att'] >= 2 for x in ev[:max(at, 0)]) else 'during-teardown'
+    if clause in ('SyncCallHangs', 'NotDisconnected', 'SpuriousDisconnected'):
+        hist = ev[:max(at, 0)]
+        race = any(overlaps(w) for w in wins if w['b'] <= at) or any(stale_packet(i) for i in range(len(hist)))
+        return variant if race else None
+    if not 0 < at <= len(ev):
+        return None
+    e = ev[at - 1]
+    if e.get('res') == 'raise':
+        return None         # a routine that ends with an exception is never "just" the known race
+    th, a = e['th'], e['att']
+    r1 = any(w['th'] != th and w['b'] <= at <= w['e'] for w in wins)
+    r2 = any(w['th'] == th and w['b'] <= at <= w['e'] and overlaps(w) for w in wins)
+    r3 = any(w['k'] == 'open' and w['att'] == a and overlaps(w) for w in wins)
+    r4 = stale_packet(at - 1)
+    return variant if (r1 or r2 or r3 or r4) else None
+
+
 def signature(t, clause, at):
     """violated clause + canonical witness class (thread role / call site / word shape), stable across seeds"""
+    race = lifecycle_race(t, clause, at)
+    if race is not None:
+        return '%s/lifecycle-race/%s' % (clause, race)
     ev = t['ev']
     q = t['q']
     words = {}
